@@ -361,6 +361,9 @@ def evaluate(cases, real, model, verd, outcome, tag):
             if r[0] == "PANIC":
                 outcome.panics += 1
             sig.append(op.split()[0] + ":" + r[0].split()[0] + (str(len(r[0].split())) if r[0].startswith("F") else ""))
+            if " SYNC" in r[0]:
+                # a timer callback ran inside an add/update/delete call instead of inside run()
+                outcome.monfail.setdefault("c07", []).append((tag + ":" + name, j))
             x = XLINES.get(id(rr), {}).get(j)
             if x and not order_clause_ok(x):
                 outcome.monfail.setdefault("c19", []).append((tag + ":" + name, j))
